@@ -42,7 +42,7 @@ CLAIMS = {
         text="(a) For every operator followed by ordered / repeated / scalar / list selections and implicit-key consumers the optimised plans of three stages are proved equal to the "
              "unoptimised plan including labels and their order (a task reading a missing or duplicated column is a structural failure). (b) Widening: the same query over sources "
              "carrying two extra never-mentioned columns with free symbolic cells is proved to return the same result.",
-        note="Trusted: symdf leaf models. Bounds: <=5 rows/input, <=3 partitions, <=3 selected columns, depth <=1 (quick) / 2 (thorough) before the selection.",
+        note="Trusted: symdf leaf models. Bounds: <=5 rows/input, <=3 partitions, <=3 selected columns, depth <=1 (quick) / 2 (thorough) before the selection. Session 3: parquet datasets (fsspec / arrow reader, fused reads) as sources of the selection programs; operator forms with mapping arguments, frame conditions, label-indexed reductions, operands with different column sets.",
         design="§4 C04",
     ),
     "C06": dict(
@@ -54,7 +54,7 @@ CLAIMS = {
              "divisions for all labels and cell values, and the division tuple is well-formed; row counts answered from metadata (Len / Lengths / size rewrites, unaligned "
              "partners included) equal the computed counts. K also covers the presorted decision behind set_index divisions and parquet partition lengths under a partition selection.",
         note="Divisions asserted by the user (sources, set_index(divisions=)) are assumed; string/datetime divisions, quantile divisions, parquet statistics (C18) outside. "
-             "Bounds: tuples of <=5 divisions (K), <=5 rows and <=3 partitions (P).",
+             "Bounds: tuples of <=5 divisions (K), <=5 rows and <=3 partitions (P). Session 3: lengths of parquet-backed collections (file statistics) under column / partition selections; concat(axis=1) joins and row-reduced operands in the length programs; touching-range concats; one open known finding (len through outer-aligned operands).",
         design="§4 C06",
     ),
     "C05": dict(
@@ -119,8 +119,8 @@ CLAIMS = {
              "operands, single-stage and staged shuffles and broadcast joins, every partition index list (single, reordered, repeated, full, reversed), to_delayed(), "
              "head(n, npartitions=k) and tail(n) is proved to yield exactly the corresponding partitions / rows of the fully computed collection for all table contents, and "
              "never to turn a computable query into an error.",
-        note="Trusted: symdf leaf models. Bounds: <=6 rows, <=4 partitions, index lists of length <=3 (+ full, reversed). File-backed sources (csv, parquet, timeseries) outside (parquet: C18).",
-        design="§4 C11",
+        note="Trusted: symdf leaf models. Bounds: <=6 rows, <=4 partitions, index lists of length <=3 (+ full, reversed). Real parquet datasets (fsspec and arrow readers, multi-file fused reads) are sources as well: the reader tasks run for real and return tagged cells (plans with reader-side filters are refused); under IO fusion rows are compared in order, not the partition layout. A single-partition source and repartition queries are included. csv / timeseries sources outside.",
+        design="§4 C11, §11.8",
     ),
     "C12": dict(
         category="model_checking", engine="P",
@@ -137,7 +137,7 @@ CLAIMS = {
         technique="symbolic execution of fused vs unfused real task graphs; z3 decides per-partition sequence equality",
         text="For every partitionwise DAG of a bounded family the fused plan (real optimize_blockwise_fusion, nested Fused._task sub-graphs interpreted as Fused._execute_task does) "
              "is proved equal, partition by partition and in row order, to optimize(fuse=False) for all table contents; npartitions, divisions and meta are compared concretely.",
-        note="Trusted: symdf leaf models. Bounds: <=5 rows/input, <=3 partitions, DAG shapes listed in families/f14.py.",
+        note="Trusted: symdf leaf models. Bounds: <=5 rows/input, <=3 partitions, DAG shapes listed in families/f14.py. Session 3: parquet sources (the reader itself is fused over several files before the element-wise chain is).",
         design="§4 C14",
     ),
     "C15": dict(
@@ -149,7 +149,7 @@ CLAIMS = {
              "(arguments / keys, capacities 1..3): each call returns the value of its own key and the cache never exceeds its capacity; the LRU agrees with a reference "
              "least-recently-looked-up model; a set_index result reports the same divisions whatever happened to the divisions cache in between (symbolic eviction count).",
         note="Outside: Expr._instances weak table, garbage collection, injected task failures, parquet plan/statistics caches and dataset rewrites (need real process histories). "
-             "Histories <= 3-5 operations; key histories enumerated (symbolic dict keys are beyond CrossHair).",
+             "Histories <= 3-5 operations; key histories enumerated (symbolic dict keys are beyond CrossHair). Session 3: k_pqstats.pq_metadata_histories - exhaustive ordered pairs / triples of metadata and data questions about one real parquet dataset in one process (shared plan / statistics / dataset-info caches), both readers, against ground truth from the files (no symbolic variable, labelled as a sweep).",
         design="§4 C15",
     ),
     "C16": dict(
@@ -159,7 +159,7 @@ CLAIMS = {
              "(symbolic) and must report the same divisions without raising. By-product: logical / optimised / lowered forms of a program family (incl. quantile-planned set_index "
              "and sort_values, sources with an unsorted index) are pickled, all module caches and the singleton table are emptied, and the unpickled collection agrees in name, "
              "schema, divisions and result. Name / cache-key injectivity (k_keys) is shared with C15.",
-        note="Outside: pickle's byte-level behaviour, _BackendData / FragmentWrapper reduction (C code), a genuinely separate process.",
+        note="Outside: pickle's byte-level behaviour, _BackendData / FragmentWrapper reduction (C code), a genuinely separate process. Session 3 by-product (concrete): a fresh interpreter with another working directory and hash seed unpickles in-memory, quantile-planned and relative-path parquet collections and must agree in name, divisions, dtypes and result.",
         design="§4 C16",
     ),
     "C17": dict(
@@ -169,7 +169,7 @@ CLAIMS = {
              "the re-imported collection is proved to compute the result of the uncut query for all table contents; schema and divisions are compared concretely. Cut kinds: persist, "
              "delayed round trip, legacy round trip, and the collection protocol used twice around an in-place modification. CrossHair decides that FromGraph / FromDelayed names "
              "identify every operand (divisions included).",
-        note="Trusted: symdf leaf models; the scheduler run inside persist() is replaced by the symbolic executor; distributed outside. Bounds: <=5 rows, <=3 partitions.",
+        note="Trusted: symdf leaf models; the scheduler run inside persist() is replaced by the symbolic executor; distributed outside. Bounds: <=5 rows, <=3 partitions. Session 3: partition selections, tail, cumulative / window / broadcast-join / shuffle continuations on the re-imported collection; the optimised plans' known divisions must be sorted.",
         design="§4 C17",
     ),
     "C18": dict(
@@ -180,7 +180,7 @@ CLAIMS = {
              "(2) _aggregate_statistics_to_file with symbolic row-group statistics (lengths = sum of row-group rows, min/max aggregation), _divisions_from_statistics over all small "
              "(min,max) configurations incl. overlapping files, FusedIO bucket/divisions/task bookkeeping with symbolic divisions. (3) partition lengths answered from statistics under "
              "a symbolic partition selection (both readers), plan-cache key and file-identity token injectivity.",
-        note="The reader (Arrow C++), write/read round trip, filesystem differences and the overwrite guard need files: outside. Counterexample replays do use real parquet files.",
+        note="The reader (Arrow C++), write/read round trip, filesystem differences and the overwrite guard need files: outside. Counterexample replays do use real parquet files. Session 3: the metadata-history sweep (see C15) and engine-P runs over real parquet sources in C04 / C06 / C11 / C14 exercise the reader's column lists, partition bookkeeping, statistics lengths and fused reads end to end.",
         design="§4 C18",
     ),
     "C19": dict(
@@ -190,7 +190,7 @@ CLAIMS = {
              "Expr.simplify / Expr.lower_completely are executed by CrossHair on stub nodes with an arbitrary symbolic successor table (cycle must be reported, fixpoint must be returned, no spinning). "
              "optimize() is run on every family program, on its own output and with fusion off (a reported non-convergence is a violation); continuations built on an already "
              "optimised head (nested optimize) are proved equal to the uncut query; the divisions cache key is proved injective (plan determinism).",
-        note="Termination of the rule system on all programs is outside the claim (needs a ranking argument); bounds: 4 node names in the driver model, F01 family sizes.",
+        note="Termination of the rule system on all programs is outside the claim (needs a ranking argument); bounds: 4 node names in the driver model, F01 family sizes. Session 3: several filters on one join result (rule ping-pong), sampled divisions in the hash-seed by-product.",
         design="§4 C19",
     ),
     "C13": dict(
@@ -239,7 +239,7 @@ def main():
         "engines": [
             {"name": "K", "path": "kernels/", "serves_properties": ["C02", "C06", "C08", "C09", "C11", "C13", "C15", "C16", "C17", "C18", "C19"],
              "kind_free_text": "CrossHair symbolic execution (z3 per path) of real planner functions with stub self"},
-            {"name": "P", "path": "symdf/", "serves_properties": ["C01", "C02", "C03", "C04", "C05", "C06", "C07", "C09", "C10", "C11", "C12", "C13", "C14", "C17", "C19"],
+            {"name": "P", "path": "symdf/", "serves_properties": ["C01", "C02", "C03", "C04", "C05", "C06", "C07", "C09", "C10", "C11", "C12", "C13", "C14", "C16", "C17", "C18", "C19"],
              "kind_free_text": "real planner run concretely, real task graph executed over symbolic partitions (z3), equivalence/routing obligations"},
             {"name": "T", "path": "smt/", "serves_properties": ["C13"], "kind_free_text": "AST->SMT-LIB QF_BVFP translation of the float boundary formula, cvc5"},
         ],
